@@ -45,7 +45,7 @@ def ann(t):
     if k == "enum":
         return "E"
     if k == "opt":
-        return f"Optional[{ann(t[1])}]"
+        return f"Union[None, {ann(t[1])}]" if len(t) > 2 and t[2] == 1 else f"Optional[{ann(t[1])}]"
     if k == "list":
         return f"List[{ann(t[1])}]"
     if k == "dict":
@@ -106,7 +106,8 @@ def gen_family(rng):
             # a direct reference: the cycle is still cut by the wrapped link of the next class
             fields.append(["link", ("ref", 1), False, False])
         else:
-            fields.append(["link", (wrap, ("ref", (i + 1) % k)), rng.random() < 0.5, False])
+            lt = (wrap, ("ref", (i + 1) % k)) if wrap != "opt" else ("opt", ("ref", (i + 1) % k), rng.randrange(2))
+            fields.append(["link", lt, rng.random() < 0.5, False])
         if rng.random() < 0.3:
             # a second edge: to any class defined earlier (higher index) or, from attrs / dataclass classes, to any class
             cands = [j for j in range(k) if j > i or kinds[i] == "attrs" or (kinds[i] == "dataclass" and rng.random() < 0.3)]
@@ -128,7 +129,7 @@ def gen_family(rng):
 
 def source(classes):
     out = ["import enum, dataclasses, attrs",
-           "from typing import Any, Dict, List, NamedTuple, Optional, Tuple, TypedDict",
+           "from typing import Any, Dict, List, NamedTuple, Optional, Tuple, TypedDict, Union",
            "class E(enum.Enum):\n    A = 'a'\n    B = 'b'",
            "def ident(v):\n    return v"]
     k = len(classes)
@@ -200,7 +201,7 @@ class Family:
         if k == "any":
             return typing.Any
         if k == "opt":
-            return typing.Optional[self.py(t[1])]
+            return typing.Union[None, self.py(t[1])] if len(t) > 2 and t[2] == 1 else typing.Optional[self.py(t[1])]
         if k == "list":
             return typing.List[self.py(t[1])]
         if k == "dict":
@@ -588,7 +589,7 @@ def shaped(fam, t, o, strat):
 # ------------------------------------------------------------------------------------ GENERIC battery
 
 GEN_SRC = '''import enum, dataclasses, attrs
-from typing import Any, Dict, Generic, List, Optional, Tuple, TypeVar
+from typing import Any, Dict, Generic, List, NotRequired, Optional, Tuple, TypedDict, TypeVar
 T = TypeVar("T")
 U = TypeVar("U")
 class E(enum.Enum):
@@ -609,7 +610,7 @@ class DInner:
 def gen_generic_family(rng):
     """one generic base (attrs or dataclass) over T with 1-4 TypeVar-typed attributes, some with attrs field converters
     (`field(converter=list)` is the common idiom), a non-parametrised subclass of a parametrised base, and a grand-child"""
-    kind = rng.choice(["attrs", "attrs", "dataclass"])
+    kind = rng.choice(["attrs", "attrs", "dataclass", "td"])
     shapes = rng.sample(["T", "List[T]", "Dict[str, T]", "Optional[T]", "Tuple[T, ...]"], rng.randint(1, 4))
     body, fields = [], []
     body.append("    label: str")
@@ -618,7 +619,10 @@ def gen_generic_family(rng):
         dflt = {"T": None, "List[T]": "list", "Dict[str, T]": "dict", "Optional[T]": "None", "Tuple[T, ...]": "()"}[sh]
         conv = kind == "attrs" and rng.random() < 0.45
         cname = {"List[T]": "list", "Dict[str, T]": "dict", "Tuple[T, ...]": "tuple"}.get(sh, "ident")
-        if kind == "attrs":
+        if kind == "td":
+            # a generic TypedDict: keys with a "default" become NotRequired
+            body.append(f"    {name}: {sh}" if dflt is None else f"    {name}: NotRequired[{sh}]")
+        elif kind == "attrs":
             args = []
             if dflt in ("list", "dict"):
                 args.append(f"factory={dflt}")
@@ -635,12 +639,22 @@ def gen_generic_family(rng):
             else:
                 body.append(f"    {name}: {sh}")
         fields.append((name, sh, conv))
-    deco = "@attrs.define" if kind == "attrs" else "@dataclasses.dataclass"
     arg = rng.choice(["int", "Inner", "E", "DInner", "str"])
+    if kind == "td":
+        src = GEN_SRC + "class Box(TypedDict, Generic[T]):\n" + "\n".join(body) + "\n"
+        return {"kind": kind, "fields": fields, "sub_arg": arg, "src": src, "notrequired": {f[0] for f, b in zip(fields, body[1:]) if "NotRequired" in b}}
+    deco = "@attrs.define" if kind == "attrs" else "@dataclasses.dataclass"
     src = GEN_SRC + f"{deco}\nclass Box(Generic[T]):\n" + "\n".join(body) + "\n"
     src += f"{deco}\nclass Sub(Box[{arg}]):\n    extra: int = 0\n"
     src += f"{deco}\nclass Leaf(Sub):\n    more: str = 'm'\n"
-    return {"kind": kind, "fields": fields, "sub_arg": arg, "src": src}
+    # a class with TWO parametrised generic bases (dataclasses / attrs without slots): both TypeVars must be bound
+    arg2 = rng.choice(["int", "Inner", "E", "str"])
+    deco2 = "@attrs.define(slots=False)" if kind == "attrs" else "@dataclasses.dataclass"
+    src += f"{deco2}\nclass Other(Generic[U]):\n    o: List[U] = {'attrs.field(factory=list)' if kind == 'attrs' else 'dataclasses.field(default_factory=list)'}\n"
+    if kind == "attrs":
+        src = src.replace("@attrs.define\nclass Box(Generic[T]):", "@attrs.define(slots=False)\nclass Box(Generic[T]):")
+    src += f"{deco2}\nclass Two(Other[{arg2}], Box[{arg}]):\n    pass\n"
+    return {"kind": kind, "fields": fields, "sub_arg": arg, "src": src, "two_arg": arg2}
 
 
 def generic_battery(v: Verdict, prop: str, n_families: int):
@@ -716,7 +730,11 @@ def generic_battery(v: Verdict, prop: str, n_families: int):
                     return type(x) is dict and all(type(k) is str and ok1(e) for k, e in x.items())
                 return x is None or ok1(x)
 
-            targets = [("Box", a) for a in rng.sample(sorted(args), 2)] + [("Sub", fam["sub_arg"]), ("Leaf", fam["sub_arg"])]
+            is_td = fam["kind"] == "td"
+            get = (lambda r, nm: r[nm]) if is_td else getattr
+            targets = [("Box", a) for a in rng.sample(sorted(args), 2)]
+            if not is_td:
+                targets += [("Sub", fam["sub_arg"]), ("Leaf", fam["sub_arg"]), ("Two", fam["sub_arg"])]
             convs = {dv: Converter(detailed_validation=dv) for dv in (True, False)}
             rng.shuffle(targets)
             for cname, aname in targets:
@@ -730,13 +748,22 @@ def generic_battery(v: Verdict, prop: str, n_families: int):
                     kw["extra"] = rng.choice([0, 4])
                 if cname == "Leaf":
                     kw["more"] = rng.choice(["m", "n"])
+                if cname == "Two":
+                    kw["o"] = [val_of(fam["two_arg"]) for _ in range(rng.randint(0, 2))]
+                if is_td:
+                    for nm in fam["notrequired"]:
+                        if rng.random() < 0.3:
+                            kw.pop(nm)
                 x = cl(**kw)
                 exp = {"label": kw["label"]}
                 for name, sh, _c in fam["fields"]:
-                    exp[name] = field_enc(sh, aname, kw[name])
+                    if name in kw:
+                        exp[name] = field_enc(sh, aname, kw[name])
                 for extra in ("extra", "more"):
                     if extra in kw:
                         exp[extra] = kw[extra]
+                if cname == "Two":
+                    exp["o"] = [enc_of(fam["two_arg"], e) for e in kw["o"]]
                 dv = rng.random() < 0.5
                 desc = {"battery": "GENERIC", "family_source": fam["src"], "type": repr(T), "value": repr(x), "detailed_validation": dv}
                 v.count(repr((fam["src"], repr(T), repr(x), dv)), True)
@@ -757,7 +784,9 @@ def generic_battery(v: Verdict, prop: str, n_families: int):
                         v.violation("round trip of a generic class does not give back the value", dict(desc, unstructured=repr(u), structured=repr(r1[1])))
                     if "C02" in props and r1[0] == "ok":
                         r = r1[1]
-                        bad = type(r) is not cl or any(not conforms_field(sh, aname, getattr(r, name)) for name, sh, _c in fam["fields"])
+                        bad = (type(r) is not (dict if is_td else cl)) or any(
+                            (name in r if is_td else True) and not conforms_field(sh, aname, get(r, name)) for name, sh, _c in fam["fields"]) or (
+                            is_td and any(name not in r for name, _sh, _c in fam["fields"] if name not in fam["notrequired"]))
                         if bad:
                             v.violation("structure returned an instance of a generic class whose attributes are not of the substituted types",
                                         dict(desc, payload=repr(o), structured=repr(r)))
